@@ -179,6 +179,9 @@ func ext۰reflect۰Zero(fr *frame, args []value) value {
 }
 
 func reflectKind(t types.Type) reflect.Kind {
+	if t == nil {
+		return reflect.Invalid
+	}
 	switch t := t.(type) {
 	case *types.Named, *types.Alias:
 		return reflectKind(t.Underlying())
@@ -248,6 +251,10 @@ func ext۰reflect۰Value۰Kind(fr *frame, args []value) value {
 
 func ext۰reflect۰Value۰String(fr *frame, args []value) value {
 	// Signature: func (reflect.Value) string
+	switch s := rV2V(args[0]).(type) {
+	case string, symstr:
+		return s
+	}
 	return toString(rV2V(args[0]))
 }
 
@@ -373,7 +380,11 @@ func ext۰reflect۰Value۰Index(fr *frame, args []value) value {
 
 func ext۰reflect۰Value۰Bool(fr *frame, args []value) value {
 	// Signature: func (reflect.Value) bool
-	return rV2V(args[0]).(bool)
+	switch b := rV2V(args[0]).(type) {
+	case bool, symb:
+		return b
+	}
+	panic(targetPanic{"reflect: call of reflect.Value.Bool on non-bool Value"})
 }
 
 func ext۰reflect۰Value۰CanAddr(fr *frame, args []value) value {
@@ -409,6 +420,42 @@ func ext۰reflect۰Value۰Field(fr *frame, args []value) value {
 	v := args[0]
 	i := args[1].(int)
 	return makeReflectValue(rV2T(v).t.Underlying().(*types.Struct).Field(i).Type(), rV2V(v).(structure)[i])
+}
+
+func ext۰reflect۰Value۰FieldByName(fr *frame, args []value) value {
+	// Signature: func (v reflect.Value, name string) reflect.Value
+	v := args[0]
+	name := args[1].(string)
+	st := rV2T(v).t.Underlying().(*types.Struct)
+	for k := 0; k < st.NumFields(); k++ {
+		if st.Field(k).Name() == name {
+			return makeReflectValue(st.Field(k).Type(), rV2V(v).(structure)[k])
+		}
+	}
+	// promoted fields of embedded structs (one level, as gopki's types need)
+	for k := 0; k < st.NumFields(); k++ {
+		f := st.Field(k)
+		if !f.Anonymous() {
+			continue
+		}
+		if est, ok := f.Type().Underlying().(*types.Struct); ok {
+			for j := 0; j < est.NumFields(); j++ {
+				if est.Field(j).Name() == name {
+					return makeReflectValue(est.Field(j).Type(), rV2V(v).(structure)[k].(structure)[j])
+				}
+			}
+		}
+	}
+	return makeReflectValue(nil, nil)
+}
+
+func ext۰reflect۰Value۰IsZero(fr *frame, args []value) value {
+	// Signature: func (v reflect.Value) bool
+	t := rV2T(args[0]).t
+	if t == nil {
+		panic(targetPanic{"reflect: call of reflect.Value.IsZero on zero Value"})
+	}
+	return fr.i.isZeroValue(t, rV2V(args[0]))
 }
 
 func ext۰reflect۰Value۰Float(fr *frame, args []value) value {
